@@ -282,10 +282,11 @@ def specRootStep (cx : Ctx) (line : String) : Option SExp :=
     match op, args with
     | "new", [c, r] => do
       let c ← nat c; let r ← nat r
-      if specShapeOk c r then pure (okState c r (List.replicate (c * r) 0)) else pure .panic
+      -- a valid shape that no `Vec<T>` can hold cannot succeed either ("capacity overflow")
+      if specShapeOk c r ∧ c * r ≤ cx.capLimit then pure (okState c r (List.replicate (c * r) 0)) else pure .panic
     | "init", [c, r, x] => do
       let c ← nat c; let r ← nat r; let x ← nat x
-      if specShapeOk c r then pure (okState c r (List.replicate (c * r) (v x))) else pure .panic
+      if specShapeOk c r ∧ c * r ≤ cx.capLimit then pure (okState c r (List.replicate (c * r) (v x))) else pure .panic
     | "from_vec", [c, r, l] | "from_box", [c, r, l] => do
       let c ← nat c; let r ← nat r; let l ← parseList l
       if specShapeOk c r ∧ c * r = l.length then pure (okState c r (l.map v)) else pure .panic
